@@ -55,6 +55,11 @@ def contributions(fn: ast.FunctionDef) -> tuple[set, list[str]]:
         return set(), [f"returns {ast.unparse(rets[0].value)}"]
     else:
         acc = rv.id
+    if direct is None:
+        # a sub-expression named as a local (own_worker = self.finished_worker) is that sub-expression
+        from ..canon import inline_locals
+
+        fn = inline_locals(fn, keep={acc})
     out = set()
 
     def add(iters, conds, elem, star):
@@ -91,6 +96,10 @@ def contributions(fn: ast.FunctionDef) -> tuple[set, list[str]]:
         elif isinstance(value, ast.BinOp) and isinstance(value.op, (ast.BitOr, ast.Add)):
             value_contrib(value.left, iters, conds, True)
             value_contrib(value.right, iters, conds, True)
+        elif isinstance(value, ast.IfExp):
+            # {x} if c else set()  =  the contribution of x under c
+            value_contrib(value.body, iters, list(conds) + [(value.test, True)], star)
+            value_contrib(value.orelse, iters, list(conds) + [(value.test, False)], star)
         else:
             add(iters, conds, value, True)
 
